@@ -8,14 +8,18 @@
 package c03
 
 import (
+	"encoding/json"
 	"fmt"
 	"os"
+	"path/filepath"
 	"runtime"
 	"runtime/debug"
+	"sort"
 	"strings"
 	"sync"
 	"testing"
 	"testing/synctest"
+	"time"
 
 	"verif/harness/lib/ev"
 )
@@ -55,30 +59,112 @@ func workers() int {
 	return w
 }
 
+// weight counts the evaluations of a unit by a dry run of its enumeration.
+func (u unit) weight() int {
+	r := &rig{dry: true, alloc: u.opts.alloc, defMin: u.opts.defMin, defMax: u.opts.defMax, opts: u.opts}
+	u.body(r)
+	return r.nDry + 10*r.nSet + 300
+}
+
+// assign distributes units over w groups (longest processing time first;
+// deterministic, so parent and children compute the same assignment).
+func assign(units []unit, w int) [][]unit {
+	type wu struct {
+		i, w int
+	}
+	ws := make([]wu, len(units))
+	for i, u := range units {
+		ws[i] = wu{i, u.weight()}
+	}
+	sort.SliceStable(ws, func(a, b int) bool { return ws[a].w > ws[b].w })
+	groups := make([][]unit, w)
+	load := make([]int, w)
+	for _, x := range ws {
+		k := 0
+		for g := 1; g < w; g++ {
+			if load[g] < load[k] {
+				k = g
+			}
+		}
+		groups[k] = append(groups[k], units[x.i])
+		load[k] += x.w
+	}
+	return groups
+}
+
+// runUnits runs units one after the other, each in its own bubble on its own
+// real peer.
 func runUnits(t *testing.T, units []unit) {
-	sem := make(chan struct{}, workers())
-	var wg sync.WaitGroup
 	for _, u := range units {
 		u := u
-		wg.Add(1)
-		go func() {
-			defer wg.Done()
-			sem <- struct{}{}
-			defer func() { <-sem }()
-			ok := t.Run(u.name, func(t *testing.T) {
-				synctest.Test(t, func(t *testing.T) {
-					r := newRig(t, u.opts)
-					u.body(r)
-					r.stop()
-				})
+		ok := t.Run(u.name, func(t *testing.T) {
+			synctest.Test(t, func(t *testing.T) {
+				r := newRig(t, u.opts)
+				u.body(r)
+				r.stop()
 			})
-			if !ok {
-				R.Broken("unit %s failed", u.name)
-			}
-		}()
+		})
+		if !ok {
+			R.Broken("unit %s failed", u.name)
+		}
 	}
-	wg.Wait()
 }
+
+// per-section counters travel from the children to the parent in side files
+// (ev merges totals, violations and signatures, but not same-named sections).
+type secCount struct {
+	Evals    int64
+	Outcomes map[string]int64
+}
+
+func sideFile(child string) string {
+	d := os.Getenv("VERIF_SCRATCH")
+	if d == "" {
+		d = os.TempDir()
+	}
+	return filepath.Join(d, "c03-sections-"+child+".json")
+}
+
+func writeSide(child string) {
+	out := map[string]secCount{}
+	flushMu.Lock()
+	var names []string
+	for n := range usedSecs {
+		names = append(names, n)
+	}
+	flushMu.Unlock()
+	sort.Strings(names)
+	for _, n := range names {
+		s := R.Sec(n)
+		out[n] = secCount{s.Evals, s.Outcomes}
+	}
+	b, _ := json.Marshal(out)
+	if err := os.WriteFile(sideFile(child), b, 0o644); err != nil {
+		R.Broken("cannot write side file: %v", err)
+	}
+}
+
+func mergeSide(child string) {
+	b, err := os.ReadFile(sideFile(child))
+	os.Remove(sideFile(child))
+	if err != nil {
+		return // the child crashed or failed: ev reports that
+	}
+	var in map[string]secCount
+	if json.Unmarshal(b, &in) != nil {
+		R.Broken("bad side file of %s", child)
+		return
+	}
+	for n, c := range in {
+		s := R.Sec(n)
+		s.Evals += c.Evals
+		for k, v := range c.Outcomes {
+			s.Outcomes[k] += v
+		}
+	}
+}
+
+var usedSecs = map[string]bool{} // guarded by flushMu
 
 // ---- independence sample ---------------------------------------------------
 
@@ -97,6 +183,9 @@ var (
 
 // maybeSample keeps every k-th case of a section for the independence re-run.
 func maybeSample(sec string, k int, r *rig, c Case, o Obs, nonnum string) {
+	if r.dry {
+		return
+	}
 	r.nSeen++
 	if r.nSeen%k != 0 {
 		return
@@ -138,11 +227,15 @@ type mainBounds struct {
 	maxCur   int
 	shards   int
 	sampleK  int
+	pairs    []pair // nil: all valid and invalid pairs
 }
 
 func mainUnits(sec string, b mainBounds, entries []string) []unit {
 	var units []unit
 	pairs := append(append([]pair{}, validPairs...), invalidPairs...)
+	if b.pairs != nil {
+		pairs = b.pairs
+	}
 	for _, alloc := range []string{"ascend", "descend"} {
 		for si, shard := range split(vectors(b.n, b.alphabet), b.shards) {
 			shard := shard
@@ -200,18 +293,20 @@ func mainSectionUnits() []unit {
 		}
 		note("full", "1..3", 3, alphFull)
 		b4 := mainBounds{n: 4, alphabet: tinyAlphabet, maxCur: 4, shards: 4, sampleK: 9001}
-		units = append(units, mainUnits("n4", b4, []string{"pin"})...)
+		units = append(units, mainUnits("n4", b4, entries)...)
 		note("n4", 4, 4, alphTiny)
-		R.Sec("n4/block").Bounds["note"] = "quick tier: 4 peers only through Cluster.Pin; thorough covers BlockAllocate too"
 	} else {
 		for n := 1; n <= 4; n++ {
 			b := mainBounds{n: n, alphabet: fullAlphabet, maxCur: n, shards: map[int]int{1: 1, 2: 1, 3: 2, 4: 24}[n], sampleK: 100003}
 			units = append(units, mainUnits("full", b, entries)...)
 		}
 		note("full", "1..4", 4, alphFull)
-		b5 := mainBounds{n: 5, alphabet: minAlphabet, maxCur: 3, shards: 12, sampleK: 100003}
+		b5 := mainBounds{n: 5, alphabet: minAlphabet, maxCur: 3, shards: 12, sampleK: 100003, pairs: validPairs}
 		units = append(units, mainUnits("n5", b5, entries)...)
 		note("n5", 5, 3, alphMin)
+		for _, e := range entries {
+			R.Sec("n5/" + e).Bounds["factors"] = "valid pairs only: (-1,-1),(1,1),(1,2),(2,2),(2,3),(3,3)"
+		}
 	}
 	return units
 }
@@ -226,9 +321,6 @@ const (
 // TestC03 runs every section's units on a small worker pool (one bubble and
 // one real peer per unit), then re-runs a sample of the cases on fresh peers.
 func TestC03(t *testing.T) {
-	if ev.ChildUnit() != "" {
-		return
-	}
 	var units []unit
 	units = append(units, mainSectionUnits()...)
 	units = append(units, exclusionUnits()...)
@@ -248,8 +340,41 @@ func TestC03(t *testing.T) {
 		units = f
 		R.NotExhaustive("C03_ONLY filter set: " + only)
 	}
-	runUnits(t, units)
+	if len(units) == 0 {
+		t.Fatal("no units")
+	}
+	w := workers()
+	groups := assign(units, w)
+	child := ev.ChildUnit()
+	if child == "" && os.Getenv("C03_INPROC") == "" {
+		var names []string
+		for k := range groups {
+			names = append(names, fmt.Sprintf("w%d", k))
+		}
+		per := 6 * time.Minute
+		if ev.Thorough() {
+			per = 90 * time.Minute
+		}
+		independenceSection()
+		R.RunChildren("TestC03", names, w, per)
+		for _, n := range names {
+			mergeSide(n)
+		}
+		R.Note("workers", fmt.Sprintf("%d child processes, units assigned by evaluation count", w))
+		return
+	}
+	if child == "" {
+		runUnits(t, units)
+		independence(t)
+		return
+	}
+	var k int
+	if _, err := fmt.Sscanf(child, "w%d", &k); err != nil || k < 0 || k >= len(groups) {
+		t.Fatalf("bad child unit %q", child)
+	}
+	runUnits(t, groups[k])
 	independence(t)
+	writeSide(child)
 }
 
 func init() {
